@@ -2,7 +2,11 @@
 
 package cluster
 
-import "time"
+import (
+	"reflect"
+	"time"
+	"unsafe"
+)
 
 // Accessors for the gossip harness (C18), injected through `go build -overlay` (never committed to the repository).
 
@@ -18,13 +22,114 @@ func (a *NodeActor) XVSelf() *NodeState { return a.nodeState }
 // XVView is the actor's ClusterView (a.clusterView), not a copy.
 func (a *NodeActor) XVView() *ClusterView { return a.clusterView }
 
-// XVLast dumps lastVersionVectorByAddr.
-func (a *NodeActor) XVLast() map[string]map[string]uint64 {
-	out := make(map[string]map[string]uint64, len(a.lastVersionVectorByAddr))
-	for k, v := range a.lastVersionVectorByAddr {
-		out[k] = XVDump(v)
+// XVLast dumps the per-peer "last version vector heard from this address" table of the actor (today the field
+// lastVersionVectorByAddr map[string]VersionVector). The table is located by reflection so that a change of its
+// representation does not break the harness build:
+//  1. a field of NodeActor named lastVersionVectorByAddr;
+//  2. otherwise the unique field of NodeActor - or of a struct (by value or behind a pointer, declared in this package,
+//     nesting depth <= 3) held by a field of NodeActor - whose type is map[string]VersionVector or map[string]*VersionVector;
+//     the actor's own view / node state / option structs are not searched.
+//
+// The second result is false when no such table (or more than one candidate) is found: the observation is then
+// UNAVAILABLE, the harness says so in its report and projects that component out of the lock-step comparison.
+func (a *NodeActor) XVLast() (map[string]map[string]uint64, bool) {
+	m, _, ok := xvFindLast(a)
+	return m, ok
+}
+
+// XVLastWhere says where XVLast found the table ("" when unavailable).
+func (a *NodeActor) XVLastWhere() string {
+	_, where, _ := xvFindLast(a)
+	return where
+}
+
+var (
+	xvVVType    = reflect.TypeOf(VersionVector{})
+	xvVVPtrType = reflect.TypeOf(&VersionVector{})
+)
+
+func xvIsLastTable(t reflect.Type) bool {
+	return t.Kind() == reflect.Map && t.Key().Kind() == reflect.String && (t.Elem() == xvVVType || t.Elem() == xvVVPtrType)
+}
+
+// xvReadable returns a value through which an unexported field can be read.
+func xvReadable(f reflect.Value) reflect.Value {
+	if f.CanAddr() {
+		return reflect.NewAt(f.Type(), unsafe.Pointer(f.UnsafeAddr())).Elem()
+	}
+	return f
+}
+
+func xvDumpTable(f reflect.Value) map[string]map[string]uint64 {
+	out := make(map[string]map[string]uint64, f.Len())
+	it := f.MapRange()
+	for it.Next() {
+		k := it.Key().String()
+		v := it.Value()
+		if v.Kind() == reflect.Ptr {
+			if v.IsNil() {
+				out[k] = map[string]uint64{}
+				continue
+			}
+			v = v.Elem()
+		}
+		// copy the VersionVector value out (it holds an unexported map)
+		p := reflect.New(xvVVType)
+		p.Elem().Set(v)
+		out[k] = XVDump(*(p.Interface().(*VersionVector)))
 	}
 	return out
+}
+
+type xvCand struct {
+	v     reflect.Value
+	where string
+}
+
+func xvSearch(v reflect.Value, path string, depth int, out *[]xvCand) {
+	if depth > 3 {
+		return
+	}
+	for v.Kind() == reflect.Ptr {
+		if v.IsNil() {
+			return
+		}
+		v = v.Elem()
+	}
+	if v.Kind() != reflect.Struct || v.Type().PkgPath() != xvVVType.PkgPath() {
+		return
+	}
+	switch v.Type() {
+	case reflect.TypeOf(ClusterView{}), reflect.TypeOf(NodeState{}), xvVVType:
+		return
+	}
+	for i := 0; i < v.NumField(); i++ {
+		f := xvReadable(v.Field(i))
+		name := path + "." + v.Type().Field(i).Name
+		if xvIsLastTable(f.Type()) {
+			*out = append(*out, xvCand{f, name})
+			continue
+		}
+		if f.Kind() == reflect.Ptr || f.Kind() == reflect.Struct {
+			xvSearch(f, name, depth+1, out)
+		}
+	}
+}
+
+func xvFindLast(a *NodeActor) (map[string]map[string]uint64, string, bool) {
+	if a == nil {
+		return nil, "", false
+	}
+	rv := reflect.ValueOf(a).Elem()
+	if f := rv.FieldByName("lastVersionVectorByAddr"); f.IsValid() && xvIsLastTable(f.Type()) {
+		return xvDumpTable(xvReadable(f)), "NodeActor.lastVersionVectorByAddr", true
+	}
+	var cands []xvCand
+	xvSearch(rv, "NodeActor", 0, &cands)
+	if len(cands) != 1 {
+		return nil, "", false
+	}
+	return xvDumpTable(cands[0].v), cands[0].where + " (found by type)", true
 }
 
 // XVPublished returns the event publisher's memory: lastInQuorum, lastLeaderAddr, lastDCHealth.
